@@ -3,11 +3,16 @@
 S1  TLC checks specs/C18: MCMol (connection tables V2000 / V3000: round trip, fixed columns,
     version switch at 1000 atoms / bonds, implemented acceptance test = "every value fits" except on
     the KB_* inputs, bond-type images; RDKit tables) and MCSd (header, metadata key grammar,
-    multi-record files).
+    multi-record files) and MCHist (an SDFile as a mutable mapping with a history: records read from
+    text, stored under other names, headers / metadata edited in place or replaced, structures set,
+    write -> read after every call; the representation "still text / already an object" of every
+    record, header and metadata block is part of the state).
 S2  every input enumerated by TLC is executed against MOLFile / SDFile / to_mol+from_mol and compared
-    with the spec's values (V2000 lines character by character).
-S3  seeded random molecules (1..1500 atoms, stacks of 1..4 models through RDKit, random SD files)
-    are recorded and re-computed event by event by TLC (specs/C18/Trace.tla).
+    with the spec's values (V2000 lines character by character); every transition of the state graph
+    of MCHist is replayed against the real SDFile, the file written and read back after every call.
+S3  seeded random molecules (1..1500 atoms, 46..120 atoms with 999..1035 bonds, stacks of 1..4 models
+    through RDKit, random SD files, random histories of 3..8 calls on SD files) are recorded and
+    re-computed event by event by TLC (specs/C18/Trace.tla).
 """
 
 from __future__ import annotations
@@ -191,19 +196,42 @@ def _key_proj(k):
             "regext": [] if k.registry_external is None else [k.registry_external]}
 
 
+def _record_obj(r):
+    from biotite.structure.io.mol import Metadata, SDRecord
+
+    md = Metadata()
+    for k, v in r["meta"]:
+        md[_key_obj(k)] = "\n".join(v)
+    return SDRecord(header=_header_obj(r["header"]), ctab="".join(x + "\n" for x in r["ctab"]), metadata=md)
+
+
+def _project_file(sd2):
+    back = []
+    for name in sd2.keys():
+        rec = sd2[name]
+        try:
+            items = [[_key_proj(k), v.split("\n")] for k, v in rec.metadata.items()]
+            meta = {"ok": True, "items": items}
+        except Exception:
+            meta = {"ok": False, "items": []}
+        try:
+            mol = proj_mol(rec.get_structure())
+        except Exception:
+            mol = dict(NO_MOL)
+        back.append({"header": _header_proj(rec.header), "ctab": rec.ctab.splitlines(), "meta": meta,
+                     "mol": mol})
+    return back
+
+
 def run_sd(recs):
     """recs: [{header, ctab: [lines], meta: [[key, [value lines]]]}] (texts as str)."""
-    from biotite.structure.io.mol import Metadata, SDFile, SDRecord
+    from biotite.structure.io.mol import SDFile
 
     ev = {"op": "sd", "recs": recs, "oc": "ok", "lines": [], "back": [], "err": ""}
     try:
         sd = SDFile()
         for r in recs:
-            md = Metadata()
-            for k, v in r["meta"]:
-                md[_key_obj(k)] = "\n".join(v)
-            rec = SDRecord(header=_header_obj(r["header"]), ctab="".join(x + "\n" for x in r["ctab"]), metadata=md)
-            sd[r["header"]["mol_name"]] = rec
+            sd[r["header"]["mol_name"]] = _record_obj(r)
         out = io.StringIO()
         sd.write(out)
         text = out.getvalue()
@@ -216,23 +244,125 @@ def run_sd(recs):
         with warnings.catch_warnings():
             warnings.simplefilter("ignore")
             sd2 = SDFile.read(io.StringIO(text))
-            back = []
-            for name in sd2.keys():
-                rec = sd2[name]
-                try:
-                    items = [[_key_proj(k), v.split("\n")] for k, v in rec.metadata.items()]
-                    meta = {"ok": True, "items": items}
-                except Exception:
-                    meta = {"ok": False, "items": []}
-                try:
-                    mol = proj_mol(rec.get_structure())
-                except Exception:
-                    mol = dict(NO_MOL)
-                back.append({"header": _header_proj(rec.header), "ctab": rec.ctab.splitlines(), "meta": meta,
-                             "mol": mol})
-            ev["back"] = back
+            ev["back"] = _project_file(sd2)
     except Exception as e:
         ev["err"] = f"read: {type(e).__name__}: {e}"[:200]
+    return ev
+
+
+# --------------------------------------------------------------------------- histories of an SDFile (SdHist.tla)
+HDR_ATTR = {"initials": "initials", "program": "program", "time": "time", "dimensions": "dimensions",
+            "scaling": "scaling_factors", "energy": "energy", "registry": "registry_number", "comments": "comments"}
+
+
+def _time_obj(t):
+    if not t:
+        return None
+    mo, d, yy, hh, mi = t[0]
+    return datetime.datetime(2000 + yy if yy < 69 else 1900 + yy, mo, d, hh, mi)
+
+
+def hist_build(recs, loaded):
+    from biotite.structure.io.mol import SDFile
+
+    sd = SDFile()
+    for r in recs:
+        sd[r["header"]["mol_name"]] = _record_obj(r)
+    if loaded:
+        sd = SDFile.deserialize(sd.serialize())
+    return sd
+
+
+def hist_apply(sd, c):
+    """One call of SdHist.tla on the real mapping; returns the mapping (a new one after Reload)."""
+    from biotite.structure import BondType
+    from biotite.structure.io.mol import Header, Metadata, SDFile
+
+    k = c["c"]
+    key = list(sd.keys())[c["i"] - 1] if "i" in c else None
+    if k == "Reload":
+        return SDFile.deserialize(sd.serialize())
+    if k == "Touch":
+        rec = sd[key]
+        if c["what"] == "header":
+            _ = rec.header.comments
+        elif c["what"] == "meta":
+            _ = list(rec.metadata.items())
+    elif k == "Move":
+        rec = sd[key]
+        del sd[key]
+        sd[c["name"]] = rec
+    elif k == "Insert":
+        rec = _record_obj(c["rec"])
+        if c["how"] == "parsed":            # the record comes out of another file that was read
+            other = SDFile()
+            other[c["rec"]["header"]["mol_name"]] = rec
+            other = SDFile.deserialize(other.serialize())
+            rec = other[c["rec"]["header"]["mol_name"]]
+        sd[c["name"]] = rec
+    elif k == "Delete":
+        del sd[key]
+    elif k == "SetField":
+        v = _time_obj(c["value"]) if c["field"] == "time" else c["value"]
+        setattr(sd[key].header, HDR_ATTR[c["field"]], v)
+    elif k == "NewHeader":
+        h = c["header"]
+        sd[key].header = Header(mol_name=key, initials=h["initials"], program=h["program"], time=_time_obj(h["time"]),
+                                dimensions=h["dimensions"], scaling_factors=h["scaling"], energy=h["energy"],
+                                registry_number=h["registry"], comments=h["comments"])
+    elif k == "SetMeta":
+        sd[key].metadata[_key_obj(c["key"])] = "\n".join(c["value"])
+    elif k == "DelMeta":
+        del sd[key].metadata[_key_obj(c["key"])]
+    elif k == "NewMeta":
+        sd[key].metadata = {_key_obj(kk): "\n".join(v) for kk, v in c["meta"]}
+    elif k == "SetStructure":
+        sd[key].set_structure(build_mol(c["m"]), default_bond_type=BondType(0),
+                              version=None if c["version"] == "None" else c["version"])
+    else:
+        raise AssertionError(f"driver: unknown call {k}")
+    return sd
+
+
+def hist_observe(sd):
+    """keys of the mapping as it is, and the records of the file it writes, read back (nothing of the
+    mapping itself is looked at: records that are still text stay text)."""
+    from biotite.structure.io.mol import SDFile
+
+    obs = {"keys": [str(x) for x in sd.keys()], "back": [], "err": ""}
+    try:
+        text = sd.serialize()
+        with warnings.catch_warnings():
+            warnings.simplefilter("ignore")
+            obs["back"] = _project_file(SDFile.deserialize(text))
+    except Exception as e:
+        obs["err"] = f"write/read: {type(e).__name__}: {e}"[:200]
+    return obs
+
+
+def hist_step(sd, c):
+    oc, err = "ok", ""
+    try:
+        with warnings.catch_warnings():
+            warnings.simplefilter("ignore")
+            sd = hist_apply(sd, c)
+    except AssertionError:
+        raise
+    except Exception as e:
+        oc, err = "Rejected", f"{type(e).__name__}: {e}"[:200]
+    obs = hist_observe(sd)
+    obs["oc"] = oc
+    if err:
+        obs["err"] = (err + " | " + obs["err"]).strip(" |")
+    return sd, obs
+
+
+def run_hist(recs, loaded, calls):
+    ev = {"op": "hist", "recs": recs, "loaded": bool(loaded), "calls": calls, "obs": [], "oc": "ok", "err": ""}
+    sd = hist_build(recs, loaded)
+    for c in calls:
+        sd, obs = hist_step(sd, c)
+        ev["obs"].append(obs)
     return ev
 
 
@@ -252,7 +382,8 @@ def mol_eq(g, x):
 
 def compare_ctab(case, ev):
     exp = case["exp"]
-    base = {"case": {"m": case["m"], "version": case["version"], "dflt": case["dflt"]} if len(case["m"]["atoms"]) <= 20
+    base = {"case": {"m": case["m"], "version": case["version"], "dflt": case["dflt"]}
+            if len(case["m"]["atoms"]) <= 20 and len(case["m"]["bonds"]) <= 40
             else {"chain": [len(case["m"]["atoms"]), len(case["m"]["bonds"])], "version": case["version"], "dflt": case["dflt"]},
             "kb": exp["kb"], "version": case["version"]}
     mm, diag = [], []
@@ -328,6 +459,60 @@ def compare_sd(recs, exp, ev):
     return [], diag
 
 
+def compare_hist(exp, obs):
+    """exp: the state of MCHist after the call ({oc, file: [{key, rec}]}), obs: hist_step's observation."""
+    if obs["oc"] != exp["oc"]:
+        return "hist-oc", exp["oc"], {"oc": obs["oc"], "err": obs["err"]}
+    keys = [e["key"] for e in exp["file"]]
+    if obs["keys"] != keys:
+        return "hist-keys", keys, obs["keys"]
+    g = obs["back"]
+    if [r["header"]["mol_name"] for r in g] != keys:
+        return "hist-names", keys, {"names": [r["header"]["mol_name"] for r in g], "err": obs["err"]}
+    for k, (gr, e) in enumerate(zip(g, exp["file"])):
+        xr = e["rec"]
+        if gr["header"] != xr["header"]:
+            return "hist-header", {"record": k, "header": xr["header"]}, gr["header"]
+        if not gr["meta"]["ok"] or gr["meta"]["items"] != xr["meta"]:
+            return "hist-meta", {"record": k, "meta": xr["meta"]}, gr["meta"]
+        if gr["ctab"] != xr["ctab"] or not gr["mol"]["ok"]:
+            return "hist-ctab", {"record": k, "ctab": xr["ctab"]}, [gr["ctab"], gr["mol"]["ok"]]
+    return None
+
+
+_GRAPH = None
+
+
+def exec_hist(item):
+    """S2 for histories: paths of the state graph of MCHist replayed call by call."""
+    global _GRAPH
+    from harness.tlabind.pool import progress
+
+    if _GRAPH is None:
+        with open(os.environ["C18_GRAPH"]) as f:
+            _GRAPH = json.load(f)
+    states, labels = _GRAPH["states"], _GRAPH["labels"]
+    mism, steps = [], 0
+    for path in item["paths"]:
+        init = states[path["init"]]
+        recs = [e["rec"] for e in init["file"]]
+        loaded = init["forms"][0][0] == "text"
+        calls = [labels[li] for li, _ in path["steps"]]
+        progress({"t": "hist", "loaded": loaded, "calls": [[c["c"], c.get("i")] for c in calls]})
+        sd = hist_build(recs, loaded)
+        for n, (li, dst) in enumerate(path["steps"]):
+            sd, obs = hist_step(sd, labels[li])
+            steps += 1
+            bad = compare_hist(states[dst], obs)
+            if bad:
+                mism.append({"kind": bad[0], "expected": bad[1], "observed": bad[2], "step": n + 1,
+                             "history": [dict(c, rec="(record)") if "rec" in c else c for c in calls[:n + 1]],
+                             "loaded": loaded, "forms_before": states[path["steps"][n - 1][1] if n else path["init"]]["forms"],
+                             "replay": {"recs": recs, "loaded": loaded, "calls": calls[:n + 1]}})
+                break
+    return {"mismatch": mism, "n": len(item["paths"]), "steps": steps}
+
+
 # --------------------------------------------------------------------------- pool workers
 def exec_cases(item):
     from harness.tlabind.pool import progress
@@ -364,7 +549,7 @@ NAME_CH = "abcXYZ019_."
 VAL_WORDS = ["v", "1.5", "two words", "x=y", "-3", "M  END", "a>b", "$", "DT1", "<k>"]
 
 
-def gen_mol(rng, n, edge):
+def gen_mol(rng, n, edge, nb=None):
     atoms = []
     for i in range(n):
         if n > 100:
@@ -383,14 +568,16 @@ def gen_mol(rng, n, edge):
             el = rng.choice(["ABCD", "", "c"])
         atoms.append({"elem": el, "xyz": xyz, "chg": q})
     pairs = set()
-    nb = rng.randint(0, min(2 * n, n + 30)) if n < 900 else rng.choice([n - 1, 999, 1000, 1001, n + 5])
+    if nb is None:
+        nb = rng.randint(0, min(2 * n, n + 30)) if n < 900 else rng.choice([n - 1, 999, 1000, 1001, n + 5])
+    dense = nb > 2 * n
     if n > 1:
         for k in range(min(nb, n - 1)):       # a spanning path first (cheap, any bond graph follows)
             pairs.add((k, k + 1))
         while len(pairs) < nb and len(pairs) < n * (n - 1) // 2:
             i, j = sorted(rng.sample(range(n), 2))
             pairs.add((i, j))
-        if n < 900:                            # any bond graph: drop a random part of the path again
+        if n < 900 and not dense:              # any bond graph: drop a random part of the path again
             pairs = set(p for p in pairs if rng.random() < 0.8)
     bonds = [[i, j, rng.randint(0, 9)] for i, j in sorted(pairs)]
     return {"atoms": atoms, "bonds": bonds, "charge_annot": rng.random() < 0.7}
@@ -427,7 +614,6 @@ def gen_header(rng, name):
 
 def record_cases(item):
     """S3: seeded random executions -> observed events."""
-    from biotite.structure.io.mol.ctab import write_structure_to_ctab
     from harness.tlabind.pool import progress
 
     rng = random.Random(item["seed"])
@@ -436,10 +622,15 @@ def record_cases(item):
         r = rng.random()
         edge = rng.random() < 0.3
         if item.get("big") and c == 0:
-            n = rng.choice([998, 999, 1000, 1001, rng.randint(1001, 1500)])
-            m = gen_mol(rng, n, False)
-            version = rng.choice(["None", "None", "V2000", "V3000"])
-            progress({"op": "ctab", "natoms": n, "version": version})
+            # the two counts of the counts line around their limits, independently of each other
+            if item["big"] == "bonds":
+                n = rng.randint(46, 120)
+                m = gen_mol(rng, n, False, nb=rng.choice([999, 1000, 1001, rng.randint(1002, 1035)]))
+            else:
+                n = rng.choice([998, 999, 1000, 1001, rng.randint(1001, 1500)])
+                m = gen_mol(rng, n, False)
+            version = rng.choice(["None", "V2000", "V3000"])
+            progress({"op": "ctab", "natoms": n, "nbonds": len(m["bonds"]), "version": version})
             events.append(run_ctab(m, version, 0))
         elif r < 0.5:
             n = rng.choice([1, 2, 3, 5, 9, 17, rng.randint(1, 40)])
@@ -466,33 +657,117 @@ def record_cases(item):
             dative = rng.random() < 0.5
             progress({"op": "rd", "m": m, "nmodels": nm, "dative": dative})
             events.append(run_rd(m, nm, dative, ring))
-        else:
-            nrec = rng.randint(1, 4)
-            names = []
-            while len(names) < nrec:
-                nmx = gen_text(rng, "ABab12 _-", 0, 10).strip()
-                if nmx not in names and not nmx.startswith("$$$$"):
-                    names.append(nmx)
-            recs = []
-            for nm in names:
-                mol = gen_mol(rng, rng.randint(1, 6), False)
-                with warnings.catch_warnings():
-                    warnings.simplefilter("ignore")
-                    ctab = write_structure_to_ctab(build_mol(mol), version=rng.choice([None, "V3000"]))
-                meta, seen = [], []
-                for _ in range(rng.randint(0, 3)):
-                    k = gen_key(rng)
-                    if k in seen:
-                        continue
-                    seen.append(k)
-                    vals = [rng.choice(VAL_WORDS) for _ in range(rng.randint(1, 3))]
-                    vals = [v for v in vals if not v.startswith(">") and not v.startswith("$$$$")]
-                    if vals:
-                        meta.append([k, vals])
-                recs.append({"header": gen_header(rng, nm), "ctab": [str(x) for x in ctab], "meta": meta})
-            progress({"op": "sd", "names": names})
+        elif r < 0.88:
+            recs = gen_recs(rng, rng.randint(1, 4))
+            progress({"op": "sd", "names": [x["header"]["mol_name"] for x in recs]})
             events.append(run_sd(recs))
+        else:
+            events.append(record_hist(rng, progress))
     return {"events": events}
+
+
+def gen_name(rng, taken):
+    while True:
+        nmx = gen_text(rng, "ABab12 _-", 0, 10).strip()
+        if nmx not in taken and not nmx.startswith("$$$$"):
+            return nmx
+
+
+def gen_value(rng):
+    vals = [rng.choice(VAL_WORDS) for _ in range(rng.randint(1, 3))]
+    return [v for v in vals if not v.startswith(">") and not v.startswith("$$$$")]
+
+
+def gen_meta(rng):
+    meta, seen = [], []
+    for _ in range(rng.randint(0, 3)):
+        k = gen_key(rng)
+        if k in seen:
+            continue
+        seen.append(k)
+        vals = gen_value(rng)
+        if vals:
+            meta.append([k, vals])
+    return meta
+
+
+def gen_ctab(rng):
+    from biotite.structure.io.mol.ctab import write_structure_to_ctab
+
+    mol = gen_mol(rng, rng.randint(1, 6), False)
+    with warnings.catch_warnings():
+        warnings.simplefilter("ignore")
+        return [str(x) for x in write_structure_to_ctab(build_mol(mol), version=rng.choice([None, "V3000"]))]
+
+
+def gen_recs(rng, nrec):
+    names = []
+    while len(names) < nrec:
+        names.append(gen_name(rng, names))
+    return [{"header": gen_header(rng, nm), "ctab": gen_ctab(rng), "meta": gen_meta(rng)} for nm in names]
+
+
+def gen_call(rng, keys, metas):
+    """A random call of SdHist.tla inside Dom_Call; keys: the keys of the real mapping now, metas: the metadata
+    keys every record is known to have had (only used to aim at existing keys)."""
+    n = len(keys)
+    i = rng.randint(1, n)
+    r = rng.random()
+    if r < 0.22:
+        return {"c": "Reload"}
+    if r < 0.30:
+        return {"c": "Touch", "what": rng.choice(["record", "header", "meta"]), "i": i}
+    if r < 0.46:
+        name = rng.choice(keys) if rng.random() < 0.2 else gen_name(rng, keys)
+        return {"c": "Move", "i": i, "name": name}
+    if r < 0.56:
+        name = rng.choice(keys) if rng.random() < 0.2 else gen_name(rng, keys)
+        rec = gen_recs(rng, 1)[0]
+        return {"c": "Insert", "how": rng.choice(["fresh", "parsed"]), "name": name, "rec": rec}
+    if r < 0.61 and n >= 2:
+        return {"c": "Delete", "i": i}
+    if r < 0.75:
+        f = rng.choice(sorted(HDR_ATTR))
+        h = gen_header(rng, "")
+        return {"c": "SetField", "field": f, "i": i, "value": h[f]}
+    if r < 0.80:
+        return {"c": "NewHeader", "i": i, "header": gen_header(rng, "")}
+    pool_keys = metas.get(keys[i - 1], [])
+    if r < 0.90:
+        k = rng.choice(pool_keys) if pool_keys and rng.random() < 0.4 else gen_key(rng)
+        return {"c": "SetMeta", "i": i, "key": k, "value": [] if rng.random() < 0.1 else (gen_value(rng) or ["v"])}
+    if r < 0.94:
+        k = rng.choice(pool_keys) if pool_keys and rng.random() < 0.8 else gen_key(rng)
+        return {"c": "DelMeta", "i": i, "key": k}
+    if r < 0.97:
+        return {"c": "NewMeta", "i": i, "meta": gen_meta(rng)}
+    return {"c": "SetStructure", "version": rng.choice(["None", "V2000", "V3000"]), "i": i,
+            "m": gen_mol(rng, rng.randint(1, 6), False)}
+
+
+def record_hist(rng, progress):
+    """A random history of an SDFile (3..8 calls), observed after every call."""
+    recs = gen_recs(rng, rng.randint(1, 3))
+    loaded = rng.random() < 0.5
+    ev = {"op": "hist", "recs": recs, "loaded": loaded, "calls": [], "obs": [], "oc": "ok", "err": ""}
+    progress({"op": "hist", "names": [x["header"]["mol_name"] for x in recs], "loaded": loaded})
+    sd = hist_build(recs, loaded)
+    metas = {x["header"]["mol_name"]: [k for k, _ in x["meta"]] for x in recs}
+    for _ in range(rng.randint(3, 8)):
+        keys = [str(x) for x in sd.keys()]
+        if not keys:
+            break
+        c = gen_call(rng, keys, metas)
+        progress({"op": "hist", "call": [c["c"], c.get("i")], "n": len(ev["calls"])})
+        if c["c"] in ("Move", "Insert"):
+            src = metas.get(keys[c["i"] - 1], []) if c["c"] == "Move" else [k for k, _ in c["rec"]["meta"]]
+            metas[c["name"]] = list(src)
+        elif c["c"] in ("SetMeta", "NewMeta"):
+            metas.setdefault(keys[c["i"] - 1], []).extend([c["key"]] if c["c"] == "SetMeta" else [k for k, _ in c["meta"]])
+        sd, obs = hist_step(sd, c)
+        ev["calls"].append(c)
+        ev["obs"].append(obs)
+    return ev
 
 
 # --------------------------------------------------------------------------- classification
@@ -569,13 +844,137 @@ def fix_recs(recs):
             for r in recs]
 
 
+def ex_key(k):
+    return {"number": k["number"], "name": [list(x) for x in k["name"]], "regint": k["regint"],
+            "regext": [list(x) for x in k["regext"]]}
+
+
 def explode_recs(recs):
-    def ex_key(k):
-        return {"number": k["number"], "name": [list(x) for x in k["name"]], "regint": k["regint"],
-                "regext": [list(x) for x in k["regext"]]}
     return [{"header": {k: (list(v) if k != "time" else v) for k, v in r["header"].items()},
              "ctab": [list(x) for x in r["ctab"]],
              "meta": [[ex_key(k), [list(x) for x in v]] for k, v in r["meta"]]} for r in recs]
+
+
+def fix_call(t):
+    """a call tuple of MCHist (to_py form) -> the call dict used by hist_apply / Trace.tla"""
+    k = t[0]
+    if k == "Reload":
+        return {"c": k}
+    if k == "Touch":
+        return {"c": k, "what": t[1], "i": t[2]}
+    if k == "Move":
+        return {"c": k, "i": t[1], "name": _t(t[2])}
+    if k == "Insert":
+        return {"c": k, "how": t[1], "name": _t(t[2]), "rec": fix_recs([t[3]])[0]}
+    if k == "Delete":
+        return {"c": k, "i": t[1]}
+    if k == "SetField":
+        return {"c": k, "field": t[1], "i": t[2], "value": t[3] if t[1] == "time" else _t(t[3])}
+    if k == "NewHeader":
+        return {"c": k, "i": t[1], "header": fix_header(t[2])}
+    if k == "SetMeta":
+        return {"c": k, "i": t[1], "key": fix_key(t[2]), "value": [_t(x) for x in t[3]]}
+    if k == "DelMeta":
+        return {"c": k, "i": t[1], "key": fix_key(t[2])}
+    if k == "NewMeta":
+        return {"c": k, "i": t[1], "meta": fix_meta(t[2])}
+    if k == "SetStructure":
+        return {"c": k, "version": t[1], "i": t[2], "m": fix_mol(t[3])}
+    raise RuntimeError(f"unknown call {t!r}")
+
+
+def fix_hist_state(st):
+    return {"oc": st["oc"], "forms": [list(f) for f in st["forms"]],
+            "file": [{"key": _t(e["key"]), "rec": fix_recs([e["rec"]])[0]} for e in st["file"]]}
+
+
+def explode_call(c):
+    """call dict (texts as str) -> JSON for Trace.tla (texts as lists of characters)"""
+    out = dict(c)
+    if "name" in c:
+        out["name"] = list(c["name"])
+    if "rec" in c:
+        out["rec"] = explode_recs([c["rec"]])[0]
+    if c["c"] == "SetField" and c["field"] != "time":
+        out["value"] = list(c["value"])
+    if "header" in c:
+        out["header"] = {k: (list(v) if k != "time" else v) for k, v in c["header"].items()}
+    if "key" in c:
+        out["key"] = ex_key(c["key"])
+    if c["c"] == "SetMeta":
+        out["value"] = [list(x) for x in c["value"]]
+    if "meta" in c:
+        out["meta"] = [[ex_key(k), [list(x) for x in v]] for k, v in c["meta"]]
+    if "m" in c:
+        out["m"] = explode_mol(c["m"])
+    return out
+
+
+def hist_stage(ctx, dotf):
+    """S2 for the state graph of MCHist: every transition is replayed against the real SDFile."""
+    from harness.tlabind import dot, helpers, tlc
+    from harness.tlabind.core import Vacuity
+    from harness.tlabind.tlaval import to_py
+
+    g = dot.load(dotf)
+    if not g.edges:
+        raise RuntimeError("MCHist: empty state graph")
+    for nid in g.state_text:
+        g.state_text[nid] = _collapse(g.state_text[nid])
+    labels, lab_ix, per_op = [], {}, {}
+    for (_s, lab, _d) in g.edges:
+        if lab not in lab_ix:
+            _name, args = dot.parse_label(_collapse(lab))
+            lab_ix[lab] = len(labels)
+            labels.append(fix_call(to_py(args[0])))
+        op = labels[lab_ix[lab]]["c"]
+        per_op[op] = per_op.get(op, 0) + 1
+    need = {"Reload", "Touch", "Move", "Insert", "Delete", "SetField", "NewHeader", "SetMeta", "DelMeta", "NewMeta",
+            "SetStructure"}
+    if need - set(per_op):
+        raise Vacuity(f"calls never taken in the state graph of MCHist: {sorted(need - set(per_op))}")
+    ids = {nid: k for k, nid in enumerate(sorted(g.state_text))}
+    states = [None] * len(ids)
+    for nid, k in ids.items():
+        states[k] = fix_hist_state({kk: to_py(v) for kk, v in g.state(nid).items()})
+    # the histories the check relies on: an edit / a new key for a record whose header (metadata) is still text
+    def on_text(e, ops, pos):
+        st = states[ids[e[0]]]
+        c = labels[lab_ix[e[1]]]
+        return c["c"] in ops and st["forms"][c["i"] - 1][pos] == "text"
+    relied = {"rekey_while_header_is_text": sum(1 for e in g.edges if on_text(e, {"Move"}, 1)),
+              "header_edit_while_text": sum(1 for e in g.edges if on_text(e, {"SetField"}, 1)),
+              "metadata_edit_while_text": sum(1 for e in g.edges if on_text(e, {"SetMeta", "DelMeta"}, 2)),
+              "reload_after_edit": sum(1 for e in g.edges if labels[lab_ix[e[1]]]["c"] == "Reload"
+                                       and any(f != ["text", "text", "text"] for f in states[ids[e[0]]]["forms"])),
+              "refused": sum(1 for st in states if st["oc"] == "Rejected")}
+    ctx.cov["hist_relied_on"] = relied
+    if not all(relied.values()):
+        raise Vacuity(f"histories the check relies on are missing from the state graph: {relied}")
+    ctx.cov["hist_transitions_per_call"] = per_op
+    paths, covered = dot.covering_paths(g, max_len=8)
+    if covered != len(g.edges):
+        raise Vacuity(f"MCHist: {covered} of {len(g.edges)} transitions covered by the replayed paths")
+    d = tlc.scratch_dir("c18hist")
+    gfile = os.path.join(d, "graph.json")
+    with open(gfile, "w") as f:
+        json.dump({"states": states, "labels": labels}, f)
+    plist = [{"init": ids[root], "steps": [[lab_ix[lab], ids[dst]] for lab, dst in steps]} for root, steps in paths]
+    plist.sort(key=lambda x: json.dumps(x))
+    items = [{"paths": ch} for ch in _chunks(plist, 80)]
+    res = helpers.run_pool(ctx, "harness.drivers.c18:exec_hist", items, stage="S2-hist", env={"C18_GRAPH": gfile},
+                           item_timeout=300)
+    nsteps = sum((r or {}).get("steps", 0) for r in res)
+    ctx.cov["hist_paths"] = len(plist)
+    ctx.cov["hist_steps_replayed"] = nsteps
+    ctx.cov["hist_states"] = len(states)
+    ctx.traces_validated += len(plist)
+    ctx.evaluations += nsteps
+    ctx.nontrivial += sum(1 for x in plist if len(x["steps"]) >= 2)
+    ctx.sample({"s2_history": {"loaded": states[plist[0]["init"]]["forms"][0][0] == "text",
+                               "calls": [[labels[li]["c"], labels[li].get("i")] for li, _ in plist[0]["steps"]]}})
+    ctx.log(f"S2-hist: {len(plist)} histories, {nsteps} calls replayed, {covered}/{len(g.edges)} transitions of "
+            f"{len(states)} states")
 
 
 # --------------------------------------------------------------------------- orchestration
@@ -600,24 +999,30 @@ def run(ctx):
         "Dom_Header: fields within their documented widths, no outer blanks, time at minute precision within 1969..2068",
         "Dom_Meta: keys distinct and within the key grammar; value lines non-empty, without outer blanks, not starting with '>' or '$$$$' (the reader strips lines, skips empty ones, takes '>' lines for keys)",
         "record names pairwise different, not starting with '$$$$'",
+        "Dom_Call (histories): calls address existing records by position, a file keeps >= 1 record (an SD text without records cannot be read), one record object is held by one file under one key (a record stored under two keys or in two files at once is outside the claim); the observation after a call is list(file.keys()) and the file written and read back - the mapping itself is not looked at, so records stay in the representation the history gave them",
         "exceptions are compared as 'Rejected' (any exception)",
         "trusted: TLC, the TLA+ value parser, numpy, RDKit, the projection (annotation arrays, BondList.as_array)",
     ]
     ctx.cov["rule"] = ("non-trivial = a written connection table with >= 1 bond or a charged atom, an RDKit round "
-                       "trip with >= 1 bond, an SD file with metadata or >= 2 records")
+                       "trip with >= 1 bond, an SD file with metadata or >= 2 records, a history of >= 2 calls")
     d = tlc.scratch_dir("c18")
     md_, sd_ = os.path.join(d, "mol"), os.path.join(d, "sd")
     nitems = 12 if quick else 120
     per = 20 if quick else 100
-    s3items = [{"seed": ctx.rng.randrange(1 << 30), "count": per, "big": (k % 4 == 0)} for k in range(nitems)]
-    with ThreadPoolExecutor(max_workers=3) as ex:
+    s3items = [{"seed": ctx.rng.randrange(1 << 30), "count": per, "big": ["atoms", "", "bonds", ""][k % 4]} for k in range(nitems)]
+    dotf = os.path.join(d, "hist.dot")
+    with ThreadPoolExecutor(max_workers=4) as ex:
         fm = ex.submit(ctx.tlc, "MCMol", f"MC{suf}.cfg", stage="S1-mol", dump=md_, workers=8 if quick else 16, timeout=2400)
         time.sleep(0.2)
         fs = ex.submit(ctx.tlc, "MCSd", f"MCSd{suf}.cfg", stage="S1-sd", dump=sd_, workers=4, timeout=1500)
         time.sleep(0.2)
+        # the dot dump is only reliable with one worker
+        fh = ex.submit(ctx.tlc, "MCHist", f"MCHist{suf}.cfg", stage="S1-hist", dump_dot=dotf, workers=1, timeout=2400)
+        time.sleep(0.2)
         f3 = ex.submit(helpers.run_pool, ctx, "harness.drivers.c18:record_cases", s3items, stage="S3",
                        item_timeout=600, procs=6 if quick else 16)
         rm, rs, s3res = fm.result(), fs.result(), f3.result()
+        fh.result()
     ctx.exhaustive = True
 
     def dpath(p):
@@ -667,8 +1072,18 @@ def run(ctx):
         raise Vacuity("no molecule with >= 1000 atoms enumerated (version switch)")
     if not any(c.get("rd") for c in cases[:nctab]):
         raise Vacuity("no RDKit expectation enumerated")
-    big = [c for c in cases if c["t"] == "ctab" and len(c["m"]["atoms"]) > 100]
-    small = [c for c in cases if not (c["t"] == "ctab" and len(c["m"]["atoms"]) > 100)]
+    # each count of the counts line across its limit while the other one stays below it, in every version mode
+    for what, pred in (("atoms >= 1000, bonds < 1000", lambda na, nb: na >= 1000 and nb < 1000),
+                       ("atoms < 1000, bonds >= 1000", lambda na, nb: na < 1000 and nb >= 1000),
+                       ("atoms < 100, bonds >= 1000", lambda na, nb: na < 100 and nb >= 1000),
+                       ("atoms < 100, bonds = 999", lambda na, nb: na < 100 and nb == 999)):
+        for v in ("None", "V2000", "V3000"):
+            if not any(c["version"] == v and pred(len(c["m"]["atoms"]), len(c["m"]["bonds"])) for c in cases[:nctab]):
+                raise Vacuity(f"count class not enumerated: {what}, version {v}")
+    def is_big(c):
+        return c["t"] == "ctab" and (len(c["m"]["atoms"]) > 100 or len(c["m"]["bonds"]) > 100)
+    big = [c for c in cases if is_big(c)]
+    small = [c for c in cases if not is_big(c)]
     items = [{"cases": [c]} for c in big] + [{"cases": ch} for ch in _chunks(small, 30)]
     res = helpers.run_pool(ctx, "harness.drivers.c18:exec_cases", items, stage="S2", item_timeout=300)
     nexec = sum(r.get("n", 0) for r in res if r)
@@ -690,6 +1105,7 @@ def run(ctx):
     for c in [x for x in cases[:nctab] if x["exp"]["oc"] == "ok" and x["m"]["bonds"]][:2]:
         ctx.sample({"s2_case": {"m": c["m"], "version": c["version"], "lines": c["exp"]["lines"][:4]}})
     ctx.log(f"S2: {nexec} executions of {len(cases)} enumerated inputs")
+    hist_stage(ctx, dotf)
 
     # ---------------------------------------------------------------- S3
     traces = [r["events"] for r in s3res if r and r.get("events")]
@@ -697,7 +1113,7 @@ def run(ctx):
     bad = []
     for tr in traces:
         for ev in tr:
-            if len(bad) >= 3:
+            if len(bad) >= 4:
                 break
             e2 = json.loads(json.dumps(ev))
             if ev["op"] == "ctab" and ev["oc"] == "ok" and len(ev["m"]["atoms"]) < 50 and ev["lines"][0][33:39].strip() == "V2000" \
@@ -709,6 +1125,10 @@ def run(ctx):
                 bad.append([e2])
             elif ev["op"] == "rd" and ev["oc"] == "ok" and ev["back"]["atoms"] and not any(b["op"] == "rd" for t in bad for b in t):
                 e2["back"]["atoms"][0]["chg"] += 1
+                bad.append([e2])
+            elif ev["op"] == "hist" and ev["obs"] and ev["obs"][-1]["back"] and not any(b["op"] == "hist" for t in bad for b in t):
+                # the last observation shows the record under the name it had when it was read
+                e2["obs"][-1]["back"][0]["header"]["mol_name"] += "x"
                 bad.append([e2])
     if bad:
         n_bad = validate(ctx, bad, selftest=True)
@@ -730,15 +1150,21 @@ def _event_json(ev):
                 "ring": bool(ev["ring"]), "oc": ev["oc"],
                 "back": {"nmodels": b["nmodels"], "atoms": [{"elem": list(a["elem"]), "chg": a["chg"]} for a in b["atoms"]],
                          "bonds": b["bonds"], "coords_same": b["coords_same"]}}
-    back = []
-    for r in ev["back"]:
-        x = explode_recs([{"header": r["header"], "ctab": r["ctab"], "meta": r["meta"]["items"]}])[0]
-        m = r["mol"]
-        back.append({"header": x["header"], "ctab": x["ctab"], "meta": {"ok": r["meta"]["ok"], "items": x["meta"]},
-                     "mol": {"ok": m["ok"], "atoms": [{"elem": list(a["elem"]), "xyz": a["xyz"], "chg": a["chg"]} for a in m["atoms"]],
-                             "bonds": m["bonds"]}})
+    def ex_back(rows):
+        back = []
+        for r in rows:
+            x = explode_recs([{"header": r["header"], "ctab": r["ctab"], "meta": r["meta"]["items"]}])[0]
+            m = r["mol"]
+            back.append({"header": x["header"], "ctab": x["ctab"], "meta": {"ok": r["meta"]["ok"], "items": x["meta"]},
+                         "mol": {"ok": m["ok"], "atoms": [{"elem": list(a["elem"]), "xyz": a["xyz"], "chg": a["chg"]} for a in m["atoms"]],
+                                 "bonds": m["bonds"]}})
+        return back
+    if ev["op"] == "hist":
+        return {"op": "hist", "recs": explode_recs(ev["recs"]), "loaded": bool(ev["loaded"]),
+                "calls": [explode_call(c) for c in ev["calls"]],
+                "obs": [{"oc": o["oc"], "keys": [list(k) for k in o["keys"]], "back": ex_back(o["back"])} for o in ev["obs"]]}
     return {"op": "sd", "recs": explode_recs(ev["recs"]), "oc": ev["oc"], "lines": [list(x) for x in ev["lines"]],
-            "back": back}
+            "back": ex_back(ev["back"])}
 
 
 def validate(ctx, traces, selftest=False):
@@ -772,7 +1198,8 @@ def validate(ctx, traces, selftest=False):
             _tag, tid, l, flags, kb, eoc = m[:6]
             ev = traces[lo + tid - 1][l - 1]
             names = {"ctab": ["oc", "lines", "readback"], "rd": ["oc", "atoms", "bonds", "ring"],
-                     "sd": ["oc", "names", "header", "meta", "ctab"]}[ev["op"]]
+                     "sd": ["oc", "names", "header", "meta", "ctab"],
+                     "hist": ["oc", "keys", "names", "header", "meta", "ctab"]}[ev["op"]]
             failed = [n for n, f in zip(names, flags) if not f]
             rec = {"stage": "S3", "op": ev["op"], "failed": failed, "kb": sorted(kb), "err": ev.get("err", "")}
             if ev["op"] == "ctab":
@@ -790,6 +1217,15 @@ def validate(ctx, traces, selftest=False):
                 else:
                     rec["kind"] = "rd-" + (failed[0] if failed else "event")
                     rec["expected"] = "ok"
+            elif ev["op"] == "hist":
+                step = m[6]
+                o = ev["obs"][step - 1]
+                rec.update(kind="hist-" + (failed[0] if failed else "event"), step=step, loaded=ev["loaded"],
+                           history=[dict(c, rec="(record)") if "rec" in c else c for c in ev["calls"][:step]],
+                           expected={"oc": eoc},
+                           observed={"oc": o["oc"], "keys": o["keys"], "err": o["err"],
+                                     "headers": [r["header"] for r in o["back"]]},
+                           replay={"recs": ev["recs"], "loaded": ev["loaded"], "calls": ev["calls"][:step]})
             else:
                 rec.update(kind="sd-" + (failed[0] if failed else "event"), recs=ev["recs"], expected={"oc": eoc},
                            observed={"oc": ev["oc"], "lines": ev["lines"][:12]})
@@ -810,10 +1246,20 @@ def validate(ctx, traces, selftest=False):
         ctx.cov["s3_events_per_op"] = ops
         ctx.cov["s3_max_atoms"] = max([len(e["m"]["atoms"]) for t in traces for e in t if e["op"] == "ctab"] + [0])
         ctx.cov["s3_refused"] = sum(1 for t in traces for e in t if e["oc"] != "ok")
+        hcalls = {}
+        for t in traces:
+            for e in t:
+                if e["op"] == "hist":
+                    for c, o in zip(e["calls"], e["obs"]):
+                        kk = c["c"] + ("" if o["oc"] == "ok" else " (refused)")
+                        hcalls[kk] = hcalls.get(kk, 0) + 1
+        ctx.cov["s3_history_calls"] = hcalls
+        ctx.evaluations += sum(hcalls.values())
         ctx.nontrivial += sum(1 for t in traces for e in t if e["oc"] == "ok" and (
             (e["op"] == "ctab" and (e["m"]["bonds"] or any(a["chg"] for a in e["m"]["atoms"]))) or
             (e["op"] == "rd" and e["m"]["bonds"]) or
-            (e["op"] == "sd" and (len(e["recs"]) >= 2 or any(r["meta"] for r in e["recs"])))))
+            (e["op"] == "sd" and (len(e["recs"]) >= 2 or any(r["meta"] for r in e["recs"]))) or
+            (e["op"] == "hist" and len(e["calls"]) >= 2)))
         for t in traces[:1]:
             for e in t[:2]:
                 ctx.sample({"s3_event": {k: (e[k] if k != "lines" else e[k][:5]) for k in e if k not in ("back",)}})
@@ -828,7 +1274,9 @@ def replay(record):
     warmup()
     kind = record.get("kind", "")
     c = record.get("replay") or record.get("case") or {}
-    if kind.startswith("rd") and "m" in c:
+    if kind.startswith("hist") and "calls" in c:
+        ev = run_hist(c["recs"], c["loaded"], c["calls"])
+    elif kind.startswith("rd") and "m" in c:
         ev = run_rd(c["m"], c["nmodels"], c["dative"])
     elif kind.startswith("sd") and "recs" in record:
         ev = run_sd(record["recs"])
@@ -855,7 +1303,7 @@ def replay(record):
 
 
 MANIFEST = {
-    "technique": "TLA+ reference codec of MDL connection tables (V2000 fixed columns, V3000 tokens), SD headers / metadata keys / records and the RDKit bond-type tables (specs/C18) model-checked by TLC; every TLC-enumerated input executed against MOLFile, SDFile and to_mol/from_mol; recorded random executions re-computed by TLC",
-    "level_text": "TLC enumerates one-atom molecules over element, coordinate (column-limit neighbours, ties) and charge classes (-15..15 and beyond), all bond types on 2- and 3-atom molecules with several default types, runs of charged atoms (M  CHG continuation), chains of 998..1001 atoms and 999 atoms with 1000 bonds in the three version modes, SD records over all key-component subsets, header width classes and 1-3 record files; the spec's invariants (round trip at 4 decimals, V2000 lines in their columns, version switch, implemented acceptance test = declarative fit except on named known-bad inputs, bond-type images, RDKit tables inverse on expressible types, header line 52 characters, key grammar round trip) hold on all of them; every input is executed against the real code (V2000 lines character by character, V3000 through the spec's reader, structures read back, RDKit round trips with 2 conformers); seeded random molecules up to 1500 atoms, RDKit stacks of 1-4 models incl. aromatic six-rings, and random SD files are recorded and re-computed by TLC.",
+    "technique": "TLA+ reference codec of MDL connection tables (V2000 fixed columns, V3000 tokens), SD headers / metadata keys / records and the RDKit bond-type tables (specs/C18) model-checked by TLC; every TLC-enumerated input executed against MOLFile, SDFile and to_mol/from_mol; an SDFile as a mutable mapping with a history (SdHist/MCHist) whose state graph is replayed transition by transition; recorded random executions and histories re-computed by TLC",
+    "level_text": "TLC enumerates one-atom molecules over element, coordinate (column-limit neighbours, ties) and charge classes (-15..15 and beyond), all bond types on 2- and 3-atom molecules with several default types, runs of charged atoms (M  CHG continuation), chains of 998..1001 atoms, 999 atoms with 1000 bonds and 45..200 atoms with 990..1203 bonds (each count of the counts line across its limit independently) in the three version modes, SD records over all key-component subsets, header width classes and 1-3 record files; the spec's invariants (round trip at 4 decimals, V2000 lines in their columns, version switch, implemented acceptance test = declarative fit except on named known-bad inputs, bond-type images, RDKit tables inverse on expressible types, header line 52 characters, key grammar round trip) hold on all of them; every input is executed against the real code (V2000 lines character by character, V3000 through the spec's reader, structures read back, RDKit round trips with 2 conformers); all histories of 2 (thorough: 3) calls out of reload, look at record / header / metadata, move to another name, insert a fresh or a parsed record, delete, set a header field, replace header / metadata, set / delete a metadata item, set the structure - starting from a freshly built and from a read two-record file - are enumerated with the lazy representation in the state, hold the invariants (write -> read is the identity, keys = molecule names, structures readable) and are replayed against the real SDFile with a write -> read observation after every call; seeded random molecules up to 1500 atoms, RDKit stacks of 1-4 models incl. aromatic six-rings, random SD files and random histories of 3-8 calls are recorded and re-computed by TLC.",
     "level_note": "Bounded: exhaustive only over the enumerated classes; beyond them recorded random executions. Which Kekule structure RDKit picks is not decided (any valid one is accepted); RDKit's implicit-hydrogen model is bypassed (explicit_hydrogen=True / add_hydrogen=False); residue-level annotations through RDKit, 2D/3D conformer selection, metadata values with empty or blank-padded lines or lines starting with '>' are outside the domain. Trusted: TLC, the TLA+ value parser, numpy, RDKit, the projection.",
 }
